@@ -135,6 +135,9 @@ def search(unit, ob, repo, seed):
         d.close()
     if r:
         r['replay_cmd'] = replay_cmd(r['driver_line'])
+        if isinstance(r.get('expected'), str) and not r['driver_line'].startswith(('seek', 'read')):
+            r['replay_cmd'] += ' --expect-hex %s' % (r['expected'].encode('utf-8').hex() or '""')
+        r['replay_note'] = 'exit 1 = the real code (tree in $VERIF_REPO, default /repo) still disagrees with the expected value / std::io::Cursor / panics'
     return r
 
 
@@ -147,4 +150,10 @@ if __name__ == '__main__':
         finally:
             d.close()
         print(out)
-        sys.exit(1 if out.startswith(('DIFF', 'PANIC')) else 0)
+        bad = out.startswith(('DIFF', 'PANIC'))
+        if '--expect-hex' in sys.argv:
+            exp = sys.argv[sys.argv.index('--expect-hex') + 1]
+            f = out.split('\t')
+            got = f[1] if out.startswith('OK') and len(f) > 1 else ('' if out.startswith('OK') else None)
+            bad = bad or got is None or got != exp
+        sys.exit(1 if bad else 0)
